@@ -29,6 +29,16 @@ var engineAssumptions = []string{
 
 var checks = []Check{
 	{
+		ID: "C15", Title: "host set and health checking keep a consistent usable view", Level: "model_checking",
+		Rule:        "states = canonical dumps of the real host.Set (three maps, cache, per-object flag/latch) reached by operation sequences; every state non-trivial (differs from all others); schedules = distinct choice sequences",
+		Assumptions: engineAssumptions,
+		Jobs: []Job{
+			{Pkg: "host", Scenarios: []string{"C15/history"}, Shards: 1, QuickS: 60, ThoroughS: 400},
+			{Pkg: "host", Scenarios: []string{"C15/concurrent"}, Shards: 8, QuickS: 60, ThoroughS: 400},
+			{Pkg: "proc/internal/hc", Scenarios: []string{"C15/hysteresis"}, Shards: 1, QuickS: 60, ThoroughS: 400},
+		},
+	},
+	{
 		ID: "SELFTEST", Title: "engine litmus tests", Level: "model_checking",
 		Rule:        "litmus programs with known outcome sets",
 		Assumptions: engineAssumptions,
